@@ -1,6 +1,8 @@
 (* API commands 720..729: the option dictionaries of labella/timeline.py (Render/Options.v).
      720 resolve:   user -> 1 resolved | 0 err        (err: 0 KeyError, 1 TypeError)
      721 tl_merge:  user -> 1 dict | 0 err
+     722 export_docs (Render/PipelineOptions.v: resolve ; axis ; engine ; both emitters), status only:
+         fresh user today(y m d) data(list of (tval, width)) -> 1 | 0 err | 2 kind (the pipeline raises) | 3 (fuel)
    input := fresh user      fresh: identity of the TimeScale the constructor creates
    user  := 0 (None) | 1 dict
    dict  := list of (key, oval)        oval := 0 | 1 b | 2 num den | 3 text | 4 list of texts | 5 (callable)
@@ -9,8 +11,8 @@
                alg minPos? maxPos? density spacing stub lineSpacing? linear own_scale scale_oid
    colour := 0 text | 1 list of texts | 2 *)
 From Coq Require Import ZArith NArith QArith List Bool.
-From Labella Require Import Extract.Codec Extract.ApiRender Render.Geometry Render.Scene
-  Layout.Distribute Layout.ForceState Render.Options.
+From Labella Require Import Extract.Codec Extract.ApiRender Extract.ApiAxis Render.Geometry Render.Scene
+  Render.Axis Layout.Distribute Layout.ForceState Render.Options Render.Pipeline Render.PipelineOptions.
 Import ListNotations.
 Open Scope Z_scope.
 
@@ -63,7 +65,22 @@ Definition e_resolved (r : resolved) : list Z :=
 
 Definition e_oerr (e : oerr) : list Z := [0; match e with OKeyError => 0 | OTypeError => 1 end].
 
+Definition api_export_status (a : list Z) : list Z :=
+  match (f <- d_n ;; u <- d_user ;; y <- d_z ;; m <- d_z ;; d <- d_z ;;
+         data <- d_list (d_pair d_tval d_q) ;; dret (f, u, (y, m, d), data)) a with
+  | Some ((fresh, u, today, data), _) =>
+      let rd := map (fun tw => mkRawDatum (fst tw) (snd tw) None []) data in
+      match export_docs fresh u rd None today with
+      | OOk (AOk _) => [1]
+      | OOk (ARaise k) => [2; ekind_code k]
+      | OOk AFuel => [3]
+      | ORaise e => e_oerr e
+      end
+  | None => bad_input
+  end.
+
 Definition api_options (cmd : Z) (a : list Z) : list Z :=
+  if cmd =? 722 then api_export_status a else
   match (f <- d_n ;; u <- d_user ;; dret (f, u)) a with
   | Some ((fresh, u), _) =>
       match cmd with
